@@ -1,4 +1,5 @@
 import Huginn.Model.FlowProgs
+import Huginn.Lemmas.HttpFlowData
 set_option linter.unusedSimpArgs false
 set_option linter.unusedSectionVars false
 /-
@@ -153,30 +154,17 @@ theorem sumLen_append (a b : List TcpData) : sumLen (a ++ b) = sumLen a + sumLen
 private theorem sumLen_cons (d : TcpData) (l : List TcpData) :
     sumLen (d :: l) = d.data.length + sumLen l := by simp [sumLen]
 
-private theorem sumLen_insert (d : TcpData) (l : List TcpData) :
-    sumLen (fullData.insertSeqStable d l) = d.data.length + sumLen l := by
-  induction l with
-  | nil => simp [fullData.insertSeqStable, sumLen]
-  | cons x l ih =>
-    unfold fullData.insertSeqStable
-    by_cases hx : x.seq < d.seq
-    · rw [if_pos hx, sumLen_cons, ih, sumLen_cons]; omega
-    · rw [if_neg hx, sumLen_cons, sumLen_cons]
-
-private theorem flatMap_length (l : List TcpData) : (l.flatMap (·.data)).length = sumLen l := by
+theorem sumLen_eq_totalLen (l : List TcpData) : sumLen l = Huginn.HttpFlow.Spec.totalLen l := by
   induction l with
   | nil => rfl
-  | cons x l ih => rw [List.flatMap_cons, List.length_append, ih, sumLen_cons]
+  | cons x l ih => rw [sumLen_cons, ih]; rfl
 
-/-- Sorting and concatenating neither loses nor invents bytes. -/
-theorem fullData_length (ds : List TcpData) : (fullData ds).length = sumLen ds := by
-  unfold fullData
-  rw [flatMap_length]
-  induction ds with
-  | nil => rfl
-  | cons d ds ih =>
-    simp only [List.foldr_cons]
-    rw [sumLen_insert, ih, sumLen_cons]
+/-- Reassembly never invents bytes: the gap-free, duplicate-free run is no longer than what is
+stored (and, unlike before fix C09-1, can be much shorter — which is why the 64 KiB limit is on the
+stored bytes). -/
+theorem fullData_length (isn : Option Nat) (ds : List TcpData) : (fullData isn ds).length ≤ sumLen ds := by
+  rw [sumLen_eq_totalLen]
+  exact Huginn.HttpFlow.fullData_length_le isn ds
 
 /-- Per-connection invariant: the flow sits under its opener's key and neither direction buffers more
 than `B` bytes. -/
@@ -233,13 +221,13 @@ private theorem finish_preserves (I : FlowKey → TcpFlow → Prop) (rm : FlowKe
 
 /-- With a flow found (under the packet's key: `isC = true`; under the reversed key: `false`),
 everything written back still obeys the invariant, provided `H.maxHead ≤ B`. -/
-private theorem withFlow_preserves (hB : H.maxHead ≤ B) (stored : FlowKey) (isC : Bool) (f : TcpFlow) (s : Seg)
+private theorem body_preserves (hB : H.maxHead ≤ B) (stored : FlowKey) (isC : Bool) (f : TcpFlow) (s : Seg)
     (hinv : HttpInv B stored f) (hkey : isC = true → stored = ⟨s.src, s.dst⟩) :
-    Preserves (HttpInv B) (httpWithFlow H stored isC f s) := by
+    Preserves (HttpInv B) (httpBody H stored isC f s) := by
   obtain ⟨hc, hsv, hb1, hb2⟩ := hinv
   have fin : ∀ f' o, Preserves (HttpInv B) (httpFinish (γ := G) (Q := Q) (P := P) stored f' s o) :=
     fun f' o => finish_preserves _ _ _ _ _
-  unfold httpWithFlow
+  unfold httpBody
   by_cases hempty : s.payload.isEmpty = true
   · rw [if_pos hempty]; exact .ret _
   rw [if_neg hempty]
@@ -248,12 +236,11 @@ private theorem withFlow_preserves (hB : H.maxHead ≤ B) (stored : FlowKey) (is
   · rw [if_pos hcl]
     by_cases hp : (!f.clientParsed) = true
     · rw [if_pos hp]
-      by_cases hfull : (fullData (f.clientData ++ [⟨s.seq, s.payload⟩])).length > H.maxHead
+      by_cases hfull : sumLen (f.clientData ++ [⟨s.seq, s.payload⟩]) > H.maxHead
       · rw [if_pos hfull]
         exact .set _ _ _ (show HttpInv B stored _ from ⟨hc, hsv, by simp [sumLen], hb2⟩) (fin _ _)
       · rw [if_neg hfull]
-        have hle : sumLen (f.clientData ++ [⟨s.seq, s.payload⟩]) ≤ B := by
-          rw [fullData_length] at hfull; omega
+        have hle : sumLen (f.clientData ++ [⟨s.seq, s.payload⟩]) ≤ B := by omega
         refine .set _ _ _ (show HttpInv B stored _ from ⟨hc, hsv, hle, hb2⟩)
           (tryReq_preserves H _ _ _ (fun q => ?_))
         cases q
@@ -263,24 +250,13 @@ private theorem withFlow_preserves (hB : H.maxHead ≤ B) (stored : FlowKey) (is
   · rw [if_neg hcl]
     by_cases hsrv : s.src = f.server
     · rw [if_pos hsrv]
-      -- server direction: the lookup cannot have hit under the packet's own key
-      have hisC : isC = false := by
-        cases hi : isC
-        · rfl
-        · exfalso
-          apply hcl
-          simp only [hi, Bool.true_and, decide_eq_true_eq]
-          rw [hc, hkey hi]
-      subst hisC
       by_cases hp : (!f.serverParsed) = true
       · rw [if_pos hp]
-        simp only [Bool.false_eq_true, if_false]
-        by_cases hfull : (fullData (f.serverData ++ [⟨s.seq, s.payload⟩])).length > H.maxHead
+        by_cases hfull : sumLen (f.serverData ++ [⟨s.seq, s.payload⟩]) > H.maxHead
         · rw [if_pos hfull]
           exact .set _ _ _ (show HttpInv B stored _ from ⟨hc, hsv, hb1, by simp [sumLen]⟩) (fin _ _)
         · rw [if_neg hfull]
-          have hle : sumLen (f.serverData ++ [⟨s.seq, s.payload⟩]) ≤ B := by
-            rw [fullData_length] at hfull; omega
+          have hle : sumLen (f.serverData ++ [⟨s.seq, s.payload⟩]) ≤ B := by omega
           refine .set _ _ _ (show HttpInv B stored _ from ⟨hc, hsv, hb1, hle⟩)
             (tryResp_preserves H _ _ _ (fun q => ?_))
           cases q
@@ -288,6 +264,15 @@ private theorem withFlow_preserves (hB : H.maxHead ≤ B) (stored : FlowKey) (is
           · exact .set _ _ _ (show HttpInv B stored _ from ⟨hc, hsv, hb1, hle⟩) (fin _ _)
       · rw [if_neg hp]; exact fin _ _
     · rw [if_neg hsrv]; exact fin _ _
+
+private theorem withFlow_preserves (hB : H.maxHead ≤ B) (stored : FlowKey) (isC : Bool) (f : TcpFlow) (s : Seg)
+    (hinv : HttpInv B stored f) (hkey : isC = true → stored = ⟨s.src, s.dst⟩) :
+    Preserves (HttpInv B) (httpWithFlow H stored isC f s) := by
+  unfold httpWithFlow
+  split
+  · have hinv' : HttpInv B stored { f with serverIsn := some s.seq } := hinv
+    exact .set _ _ _ hinv' (body_preserves H B hB stored isC _ s hinv' hkey)
+  · exact body_preserves H B hB stored isC f s hinv hkey
 
 /-- Every segment whose payload is at most `L` bytes preserves the per-connection bound
 `B = max(maxHead, L)`. -/
@@ -480,7 +465,7 @@ theorem tcp_entries_bounded {U : Type} (P : UptimeParams U) (fc : Seg → Bool) 
 /-! ## non-vacuity: the bounds are attained up to the constant (a 3-segment HTTP flow keeps its bytes) -/
 
 example : HttpInv 65536 ⟨⟨1, 1000⟩, ⟨2, 80⟩⟩
-    ⟨⟨1, 1000⟩, ⟨2, 80⟩, [⟨1, []⟩, ⟨2, [71, 69]⟩], [], false, false⟩ := by
+    ⟨⟨1, 1000⟩, ⟨2, 80⟩, [⟨1, []⟩, ⟨2, [71, 69]⟩], [], false, false, 0, none⟩ := by
   refine ⟨rfl, rfl, ?_, ?_⟩ <;> simp [sumLen]
 
 end Huginn.Props.C11
